@@ -40,3 +40,20 @@ Proof. intros H. unfold inc_fs. rewrite set_flags_u64_eval_inc. rewrite emu_flag
 Theorem set_flags_u32_incdec c ofb r s : 0 <= rflags s < 2 ^ 64 ->
   set_flags_u32 c (inc_fs ofb) 2048 r s = (Ok tt, with_flags s INCF (b2f ofb OF + szp 32 r)).
 Proof. intros H. unfold inc_fs. rewrite set_flags_u32_eval_inc. rewrite emu_flags_spec_inc by exact H. reflexivity. Qed.
+
+Lemma set_flags_u16_eval_inc c (ofb : bool) r s :
+  let fs := Z.lor 196 (Z.lor (b2f ofb FLAG_OF) (b2f false FLAG_CF)) in
+  set_flags_u16 c fs 2048 r s
+  = (Ok tt, set_rflags s (emu_flags (rflags s) fs 2048 (parity8 r) (Z.testbit r 15) (r =? 0))).
+Proof. set_flags_eval set_flags_u16 U16 15. Qed.
+Lemma set_flags_u8_eval_inc c (ofb : bool) r s :
+  let fs := Z.lor 196 (Z.lor (b2f ofb FLAG_OF) (b2f false FLAG_CF)) in
+  set_flags_u8 c fs 2048 r s
+  = (Ok tt, set_rflags s (emu_flags (rflags s) fs 2048 (parity8 r) (Z.testbit r 7) (r =? 0))).
+Proof. set_flags_eval set_flags_u8 U8 7. Qed.
+Theorem set_flags_u16_incdec c ofb r s : 0 <= rflags s < 2 ^ 64 ->
+  set_flags_u16 c (inc_fs ofb) 2048 r s = (Ok tt, with_flags s INCF (b2f ofb OF + szp 16 r)).
+Proof. intros H. unfold inc_fs. rewrite set_flags_u16_eval_inc. rewrite emu_flags_spec_inc by exact H. reflexivity. Qed.
+Theorem set_flags_u8_incdec c ofb r s : 0 <= rflags s < 2 ^ 64 ->
+  set_flags_u8 c (inc_fs ofb) 2048 r s = (Ok tt, with_flags s INCF (b2f ofb OF + szp 8 r)).
+Proof. intros H. unfold inc_fs. rewrite set_flags_u8_eval_inc. rewrite emu_flags_spec_inc by exact H. reflexivity. Qed.
